@@ -846,3 +846,55 @@ pub fn repair_nullable(spec: &mut Spec, atom: char) {
         }
     }
 }
+
+/// Keyword shape: picks rules a < b < c of one rule set, samples a lexeme w of rule b, and makes
+/// rule c the string literal w and rule a the string literal w·x (one more character): a longer
+/// keyword listed first, a general rule in the middle, and a shorter keyword that is a prefix of
+/// the first one and ties with the general rule.
+pub fn keyword_prefixes(spec: &mut Spec, tape: &[u32], extra: &[char]) {
+    let mut t = Tape::new(tape);
+    let do_rules = |rules: &mut Vec<&mut Rule>, t: &mut Tape| {
+        if rules.len() < 3 {
+            return;
+        }
+        let b = 1 + t.next(rules.len() as u32 - 2) as usize;
+        let a = t.next(b as u32) as usize;
+        let c = b + 1 + t.next((rules.len() - b - 1) as u32) as usize;
+        if rules[b].re.has_var() || rules[b].re.has_eoi() {
+            return;
+        }
+        let mut w = String::new();
+        sample_re(&rules[b].re, t, &mut w, 0);
+        if w.is_empty() || w.chars().count() > 6 {
+            return;
+        }
+        let x = if extra.is_empty() { 'a' } else { extra[t.next(extra.len() as u32) as usize] };
+        let mut w1 = w.clone();
+        w1.push(x);
+        rules[c].re = Re::Str(w);
+        rules[c].ctx = None;
+        rules[a].re = Re::Str(w1);
+        rules[a].ctx = None;
+    };
+    for item in spec.items.iter_mut() {
+        if let Top::RuleSet { items, .. } = item {
+            let mut rules: Vec<&mut Rule> = items
+                .iter_mut()
+                .filter_map(|i| match i {
+                    Inner::Rule(r) => Some(r),
+                    _ => None,
+                })
+                .collect();
+            do_rules(&mut rules, &mut t);
+        }
+    }
+    let mut top: Vec<&mut Rule> = spec
+        .items
+        .iter_mut()
+        .filter_map(|i| match i {
+            Top::Rule(r) => Some(r),
+            _ => None,
+        })
+        .collect();
+    do_rules(&mut top, &mut t);
+}
